@@ -62,6 +62,8 @@ struct MacroCase {
     prefix: &'static [&'static str],
     suffix: &'static [&'static str],
     nest: usize,
+    /// assemble inside a bank whose address unit is 4 bits (labels and `$` count nibbles)
+    unit4: bool,
 }
 
 const ARGS: [(&str, &str); 5] = [("1", "2"), ("G", "H"), ("$", "1 + 2"), ("H - G", "0x0f"), ("300", "2")];
@@ -95,6 +97,9 @@ fn render_macro(c: &MacroCase) -> String {
         s += &format!("    m{} {{p}}, {{q}} => asm {{ m{} {{p}}, {{q}} }}\n", n, n - 1);
     }
     s += "}\n";
+    if c.unit4 {
+        s += "#bankdef n { bits = 4, addr = 0, outp = 0 }\n";
+    }
     s += "G:\n";
     for x in c.prefix {
         s += x;
@@ -110,7 +115,11 @@ fn render_macro(c: &MacroCase) -> String {
 }
 
 fn inlined_prog(c: &MacroCase) -> Prog {
-    let mut items = vec![Item::Label("G".into())];
+    let mut items = vec![];
+    if c.unit4 {
+        items.push(Item::Bankdef(BankSrc { name: "n".into(), bits: Some(4), addr: Some(0), size: None, outp: Some(0), fill: false, labelalign: None }));
+    }
+    items.push(Item::Label("G".into()));
     for x in c.prefix {
         items.push(Item::Instr(x.to_string()));
     }
@@ -198,7 +207,7 @@ const CASCADE_FORMS: [&str; 9] = ["nop", "ld {p}", "jmp {p}", "jmp {q}", "jmp l"
 /// result is accepted iff some assignment is self-consistent (every instruction re-selects exactly
 /// that size as its unique smallest encoding) and reproduces the emitted bits exactly.
 fn judge_cascade(body: &[String], label_pos: usize, args: (&'static str, &'static str), prefix: &'static [&'static str], budget: usize, l: &mut Local) {
-    let c = MacroCase { body: body.to_vec(), label_pos, typed: false, args, prefix, suffix: SUFFIXES[0], nest: 0 };
+    let c = MacroCase { body: body.to_vec(), label_pos, typed: false, args, prefix, suffix: SUFFIXES[0], nest: 0, unit4: false };
     let msrc = render_macro(&c).replace("    nop => 0x00\n", "    nop => 0x00\n    jmp {a} => { assert(a < 4), 0xa @ a`4 }\n    jmp {a} => 0xb0 @ a`8\n");
     let mut inl = inlined_prog(&c);
     inl.ruledefs = vec![srcx_def(), RuleDefSrc { name: None, sub: false, rules: cascade_rules() }];
@@ -612,7 +621,31 @@ pub fn run(ctx: &Ctx) -> Report {
         if !uses_l(&body) && d[2] != 0 {
             return;
         }
-        let c = MacroCase { body, label_pos: d[2] as usize, typed: d[3] == 1, args: ARGS[d[4] as usize], prefix: PREFIXES[d[5] as usize], suffix: SUFFIXES[d[6] as usize], nest: 0 };
+        let c = MacroCase { body, label_pos: d[2] as usize, typed: d[3] == 1, args: ARGS[d[4] as usize], prefix: PREFIXES[d[5] as usize], suffix: SUFFIXES[d[6] as usize], nest: 0, unit4: false };
+        judge_macro(&c, l);
+    }));
+    // the pairs that declare a block-local label, once more inside a bank with a 4-bit address unit
+    rep.absorb(par_run(total, |i, l| {
+        let d = decode(i, &radices);
+        let body = vec![forms[d[0] as usize].clone(), forms[d[1] as usize].clone()];
+        if !uses_l(&body) || d[5] != 0 || d[6] != 0 {
+            return;
+        }
+        let c = MacroCase { body, label_pos: d[2] as usize, typed: d[3] == 1, args: ARGS[d[4] as usize], prefix: PREFIXES[1], suffix: SUFFIXES[0], nest: 0, unit4: true };
+        judge_macro(&c, l);
+    }));
+    // arguments that name a symbol relative to the caller's label scope (`.loc`), for the pairs without a block label
+    // (an inlined block label would change the scope of what follows it)
+    const LOCAL_PREFIX: &[&str] = &[".loc:", "nop"];
+    rep.absorb(par_run(nf * nf * 2 * 3, |i, l| {
+        let d = decode(i, &[nf, nf, 2, 3]);
+        let body = vec![forms[d[0] as usize].clone(), forms[d[1] as usize].clone()];
+        // (a line that BEGINS with the substituted text would read `.loc ...` as a declaration once it is inlined by
+        // hand: that is an ambiguity of the inlined text, not of the block)
+        if uses_l(&body) || body.iter().any(|b| b.starts_with("{p}")) {
+            return;
+        }
+        let c = MacroCase { body, label_pos: 0, typed: d[2] == 1, args: [(".loc", "2"), ("G.loc", ".loc"), (".loc + 1", "H - .loc")][d[3] as usize], prefix: LOCAL_PREFIX, suffix: SUFFIXES[0], nest: 0, unit4: false };
         judge_macro(&c, l);
     }));
     // nesting 1..2 on a sub-grid
@@ -620,7 +653,7 @@ pub fn run(ctx: &Ctx) -> Report {
     rep.absorb(par_run(product(&radices_n), |i, l| {
         let d = decode(i, &radices_n);
         let body = vec![forms[d[0] as usize].clone(), forms[d[1] as usize].clone()];
-        let c = MacroCase { label_pos: if uses_l(&body) { 1 } else { 0 }, body, typed: false, args: ARGS[d[3] as usize], prefix: PREFIXES[d[2] as usize], suffix: SUFFIXES[0], nest: 1 + d[4] as usize };
+        let c = MacroCase { label_pos: if uses_l(&body) { 1 } else { 0 }, body, typed: false, args: ARGS[d[3] as usize], prefix: PREFIXES[d[2] as usize], suffix: SUFFIXES[0], nest: 1 + d[4] as usize, unit4: false };
         judge_macro(&c, l);
     }));
     if ctx.thorough {
@@ -633,7 +666,7 @@ pub fn run(ctx: &Ctx) -> Report {
             if !uses_l(&body) && d[3] != 0 {
                 return;
             }
-            let c = MacroCase { body, label_pos: d[3] as usize, typed: d[4] == 1, args: ARGS[d[5] as usize], prefix: PREFIXES[d[6] as usize], suffix: SUFFIXES[0], nest: 0 };
+            let c = MacroCase { body, label_pos: d[3] as usize, typed: d[4] == 1, args: ARGS[d[5] as usize], prefix: PREFIXES[d[6] as usize], suffix: SUFFIXES[0], nest: 0, unit4: false };
             judge_macro(&c, l);
         }));
     }
@@ -683,7 +716,7 @@ pub fn run(ctx: &Ctx) -> Report {
     rep.absorb(l);
     rep.extra("inner_forms", json!(nf));
     rep.extra("function_trees", json!(nt));
-    rep.assumptions = vec!["arguments are substituted textually into asm blocks (the repository's expr_asm tests pin this); typed parameters may additionally reject an out-of-range argument at the call site".into(), "outer programs use no dot-local labels, because an inlined block label would change their scope".into()];
+    rep.assumptions = vec!["arguments are substituted textually into asm blocks (the repository's expr_asm tests pin this); typed parameters may additionally reject an out-of-range argument at the call site".into(), "outer programs use a dot-local label only together with blocks that declare no label of their own, because an inlined block label would change the scope".into()];
     for c in ["inlined-ok", "inlined-rejected", "macro-with-local-label-ok", "cascade-macro-ok", "typed-across-inlined-ok", "typed-across-inlined-rejected", "typed-across-fallback-ok", "function", "recursion-ok", "recursion-limit-error", "unbounded-recursion-error"] {
         rep.require_class(c);
     }
